@@ -84,6 +84,14 @@ def build(scen, t0=0.0, nsteps=12):
             system.add(KelvinVoigtElement(j, 20.0, 0.5, l_ref=0.2, compliance_form=False, name="kv"))
         else:
             system.add(PDcontroller(j, 15.0, 0.8, np.array([1.5, 0.0])))
+    elif scen == "shared_u0":
+        # two bodies constructed with ONE common initial-velocity array object (the usual `u0 = np.zeros(6)` handed to every
+        # body); a spring couples them, gravity acts on one only, so their velocities differ at every split state
+        u_shared = np.zeros(6)
+        b1 = RigidBody(1.0, np.diag([0.6, 0.9, 1.2]), np.array([0.0, 0, 0, 1.0, 0, 0, 0]), u_shared, name="b1")
+        b2 = RigidBody(0.7, np.diag([0.3, 0.5, 0.4]), np.array([1.0, 0.2, 0, 1.0, 0, 0, 0]), u_shared, name="b2")
+        tp = TwoPointInteraction(b1, b2, B_r_CP1=np.array([0.1, 0.0, 0.2]), B_r_CP2=np.array([0.0, -0.1, 0.1]), name="tpi")
+        system.add(b1, b2, tp, Spring(tp, 40.0, l_ref=0.8, compliance_form=False, name="spring"), Force(1.0 * g, b1, name="g1"))
     elif scen == "maxwell":
         pm = PointMass(0.5, q0=np.array([1.0, 0.2, 0.0]), u0=np.array([0.4, 0.0, 0.1]), name="pm")
         tpi = TwoPointInteraction(system.origin, pm, name="tpi")
@@ -105,7 +113,7 @@ def build(scen, t0=0.0, nsteps=12):
     return system
 
 
-SCENARIOS = ["chain", "rev_spring_force", "rev_spring_compliance", "rev_kv", "rev_pd", "rev_kv_fast", "rev_kv_back", "maxwell", "ball_plane", "two_spheres"]
+SCENARIOS = ["chain", "rev_spring_force", "rev_spring_compliance", "rev_kv", "rev_pd", "rev_kv_fast", "rev_kv_back", "maxwell", "shared_u0", "ball_plane", "two_spheres"]
 CONTACT = {"ball_plane", "two_spheres"}
 SOLVERS = ["Rattle", "BackwardEuler", "Moreau", "ScipyIVP"]
 
